@@ -6,43 +6,38 @@ import MenpoModel.Core.C19Dispatch
 
 namespace MenpoModel.LazyList
 
+/-! The tree's dispatch is `getitemRepaired` (fix 19448fa: a 0-dimensional array is integer-like, not a container);
+`getitemCoded` is the dispatch BEFORE that fix and is kept only for the historical refutation below. -/
+
 /-- PROPERTY (laziness of indexing): whenever the dispatch answers with a new list or an error, no element is
 produced — only the integer-like branch evaluates, and it evaluates one element -/
-theorem getitem_element_only_integer_like (f : GetFeat) (h : getitemCoded f = .element) :
-    f.iterable = false ∧ (f.isInt = true ∨ f.hasIndex = true) ∧ f.listAcc = .index := by
-  unfold getitemCoded at h
-  by_cases hi : f.iterable = true
-  · simp only [hi, if_true] at h
-    split at h
-    · cases h
-    · split at h
-      · cases h
-      · split at h <;> cases h
-  · have hi' : f.iterable = false := by simpa using hi
-    simp only [hi', Bool.false_eq_true, if_false] at h
-    by_cases hx : (f.isInt || f.hasIndex) = true
-    · simp only [hx, if_true] at h
-      refine ⟨hi', by simpa using hx, ?_⟩
-      cases hl : f.listAcc <;> simp [hl, outcomeOfList] at h
-      rfl
-    · simp only [hx] at h
-      cases hl : f.listAcc <;> simp [hl, outcomeOfList] at h
+theorem getitem_element_only_integer_like (f : GetFeat) (h : getitemRepaired f = .element) :
+    (f.iterable = false ∨ f.zeroDim = true) ∧ (f.isInt = true ∨ f.hasIndex = true) ∧ f.listAcc = .index := by
+  cases f with
+  | mk a b c d e g i l =>
+    cases a <;> cases b <;> cases c <;> cases d <;> cases e <;> cases g <;> cases i <;> cases l <;>
+      simp_all [getitemRepaired, outcomeOfList]
 
-/-- PROPERTY: an integer-like, non-container argument is answered exactly as an ordinary list answers it -/
-theorem getitem_integer_like_as_list (f : GetFeat) (hi : f.iterable = false) (hx : f.isInt = true ∨ f.hasIndex = true) :
-    getitemCoded f = outcomeOfList f.listAcc := by
-  have : (f.isInt || f.hasIndex) = true := by simpa using hx
-  simp [getitemCoded, hi, this]
+/-- PROPERTY: an integer-like argument that is not a container (not iterable, or 0-dimensional) is answered exactly as
+an ordinary list answers it -/
+theorem getitem_integer_like_as_list (f : GetFeat) (hi : f.iterable = false ∨ f.zeroDim = true)
+    (hx : f.isInt = true ∨ f.hasIndex = true) : getitemRepaired f = outcomeOfList f.listAcc := by
+  have h1 : (f.iterable && !f.zeroDim) = false := by
+    rcases hi with h | h <;> simp [h]
+  have h2 : (f.isInt || f.hasIndex) = true := by simpa using hx
+  simp [getitemRepaired, h1, h2]
 
 /-- a slice (anything `list` answers with a list) gives a new lazy list, never an element -/
-theorem getitem_slice_new_list (f : GetFeat) (hi : f.iterable = false) (hs : f.listAcc = .slice) :
-    getitemCoded f = .newList := by
-  unfold getitemCoded
-  simp only [hi, Bool.false_eq_true, if_false, hs, outcomeOfList]
+theorem getitem_slice_new_list (f : GetFeat) (hi : f.iterable = false ∨ f.zeroDim = true) (hs : f.listAcc = .slice) :
+    getitemRepaired f = .newList := by
+  have h1 : (f.iterable && !f.zeroDim) = false := by
+    rcases hi with h | h <;> simp [h]
+  unfold getitemRepaired
+  simp only [h1, Bool.false_eq_true, if_false, hs, outcomeOfList]
   split <;> rfl
 
-/-- REFUTATION BY WITNESS (coded behaviour): an integer index given as a 0-dimensional array is refused with
-TypeError although an ordinary list returns the element -/
+/-- HISTORICAL (the dispatch before fix 19448fa, no longer the tree's): an integer index given as a 0-dimensional array
+was refused with TypeError although an ordinary list returns the element -/
 theorem zeroD_coded_refuses : getitemCoded zeroDFeat = .typeError ∧ outcomeOfList zeroDFeat.listAcc = .element := by
   decide
 
